@@ -2,6 +2,7 @@ import Hannibal.Driver.Parse
 import Hannibal.Driver.Accept
 import Hannibal.Driver.Monitors
 import Hannibal.Driver.Spawn18
+import Hannibal.Driver.Types19
 import Hannibal.Generated.Wiring
 open Hannibal Hannibal.Driver
 
@@ -52,8 +53,18 @@ partial def spawnLoop (r : Runtime) (h : IO.FS.Stream) : IO Unit := do
   IO.println (checkLine r line)
   spawnLoop r h
 
+partial def typesLoop (h : IO.FS.Stream) : IO Unit := do
+  let line ← h.getLine
+  if line.isEmpty then return ()
+  let line := String.ofList (line.toList.filter (fun c => c != '\n' && c != '\r'))
+  IO.println (checkUse line)
+  typesLoop h
+
 def main (args : List String) : IO Unit := do
   let mode := args.headD "accept"
+  if mode == "types19" then
+    typesLoop (← IO.getStdin)
+    return ()
   if mode == "spawn18" then
     spawnLoop (parseRuntime ((args.drop 1).headD "tokio")) (← IO.getStdin)
     return ()
